@@ -89,7 +89,7 @@ def ctok(x) -> int:
 
 
 # ----------------------------------------------------------------------------- values
-def make_values(seed, k, ne, h, w, spikes=False, nans=False, flat=False):
+def make_values(seed, k, ne, h, w, spikes=False, nans=False, flat=False, specials=False):
     """ne grids h x w of pairwise distinct dyadic floats (positions observable); optional spikes / NaNs; `flat` replaces the
     ramp over rows and columns by fine-grained noise around one level (noise + spikes: many pixels sit near the filters' decision
     boundary)"""
@@ -119,7 +119,15 @@ def make_values(seed, k, ne, h, w, spikes=False, nans=False, flat=False):
         for e in range(ne):
             for _ in range(max(1, h * w // 5)):
                 out[e][rng.randrange(h)][rng.randrange(w)] = math.nan
+    if specials:  # infinities, signed zero, the smallest and the largest magnitudes (placement must not care)
+        for e in range(ne):
+            for v in SPECIALS:
+                if rng.random() < 0.6:
+                    out[e][rng.randrange(h)][rng.randrange(w)] = v
     return out
+
+
+SPECIALS = [math.inf, -math.inf, -0.0, 0.0, 5e-324, -2.2250738585072014e-308, 1.7976931348623157e308, -1e300, 1e-7]
 
 
 def txt(v):
@@ -151,6 +159,49 @@ def pick_shape(rng, shape, lo_h=1, lo_w=1):
 
 
 P_SPOT = 0.25  # share of the generated npz inputs whose stored configuration is a SpotConfig
+# storage types an .npz can carry for its fields (every other loader returns float64).  The values written are the generated
+# float64 values cast to the type (floats) or their 64-fold, rounded (integers: still pairwise distinct, far below 2^31).
+DTYPES = ["f8", "f4", "i4", "i8", ">f8", ">f4", "f2", "u4", "i2"]
+DTYPE_POOL = ["f4", "f4", "f4", "i4", "i8", ">f8", ">f4", "f2", "u4"]
+P_DTYPE = 0.12  # share of the npz inputs of convert / filter stored in another type than float64 (stack: its own class)
+
+
+def np_dtype(name):
+    return np.dtype(name)
+
+
+def cast_values(g, dt):
+    """the generated float64 grid as an array of storage type `dt`"""
+    dt = np.dtype(dt)
+    a = np.array(g, dtype=np.float64)
+    if dt.kind in "iu":
+        with np.errstate(all="ignore"):
+            a = np.where(np.isnan(a), 0.0, a)
+            a = np.rint(a * 64.0) if dt.itemsize >= 4 else np.rint(a) % 30000
+        return a.astype(dt)
+    with np.errstate(all="ignore"):
+        return a.astype(dt)
+
+
+def field_dtypes(spec):
+    """per element: the storage type of an npz input (`dtype`: one name for all fields, or one per field)"""
+    d = spec.get("dtype") or "f8"
+    names = [d] * len(spec["elements"]) if isinstance(d, str) else list(d)
+    if len(names) != len(spec["elements"]):
+        names = (names + ["f8"] * len(spec["elements"]))[:len(spec["elements"])]
+    return names
+
+
+def representable(v, dt):
+    """does the storage type hold the float64 value `v` exactly (NaN: does it have a NaN)"""
+    dt = np.dtype(dt)
+    with np.errstate(all="ignore"), warnings.catch_warnings():
+        warnings.simplefilter("ignore")
+        back = np.array(v, dtype=np.float64).astype(dt).astype(np.float64)
+    if v != v:
+        return bool(back != back)
+    return bool(back == v)
+
 SPOT_CONFIGS = [[25.0, 40.0], [100.0, 100.0], [5.0, 2.5], [12.5, 50.0], [1.0, 3.0], [10.0, 20.0]]
 
 
@@ -179,6 +230,8 @@ class NpzFmt(Fmt):
                 "nans": rng.random() < 0.2}
         if rng.random() < P_SPOT:  # an image saved from spot-wise data: the loader returns a SpotConfig (header class "Spot")
             make_spot(rng, spec)
+        if rng.random() < 0.4:  # calibrations other than the default one (the loader returns them with the image)
+            spec["calibration"] = [rng.choice(CAL_CHOICES) for _ in els]
         return spec
 
     def write(self, path, spec, vals):
@@ -186,11 +239,15 @@ class NpzFmt(Fmt):
         from pewlib.config import SpotConfig
         from pewlib.io import npz
 
-        data = np.empty((spec["h"], spec["w"]), dtype=[(e, np.float64) for e in spec["elements"]])
-        for e, g in zip(spec["elements"], vals):
-            data[e] = np.array(g, dtype=np.float64).reshape(spec["h"], spec["w"])
+        dts = field_dtypes(spec)
+        data = np.empty((spec["h"], spec["w"]), dtype=[(e, np.dtype(d)) for e, d in zip(spec["elements"], dts)],
+                        order="F" if spec.get("order") == "F" else "C")
+        for e, g, d in zip(spec["elements"], vals, dts):
+            data[e] = cast_values(g, d).reshape(spec["h"], spec["w"])
         config = SpotConfig(*spec["config"][:2]) if spec.get("cfg", "raster") == "spot" else Config(*spec["config"])
-        laser = Laser(data, config=config, info={"Name": spec["stem"]})
+        cals = spec.get("calibration") or []
+        laser = Laser(data, config=config, info={"Name": spec["stem"]},
+                      calibration={e: make_calibration(c) for e, c in zip(spec["elements"], cals) if c is not None})
         with path.open("wb") as fp:  # a file object: numpy appends '.npz' to other names
             npz.save(fp, laser)
 
@@ -434,7 +491,7 @@ def path_facts(path: Path):
     return f
 
 
-def call_loader(desc, path: Path):
+def call_loader(desc, path: Path, cal=None):
     """execute ONE library call named by the driver (`c20.plan`) -> the call record sent back to it"""
     from pewlib.io import agilent, csv, npz, perkinelmer, textimage, thermo
 
@@ -455,6 +512,8 @@ def call_loader(desc, path: Path):
         elif name == "npz":
             laser = npz.load(path)
             data, config = laser.data, laser.config
+            if cal is not None and data.dtype.names is not None:
+                rec["calib"] = cal.of(laser, data.dtype.names)
         else:
             raise core.InternalError(f"driver named an unknown loader {desc}")
         if data.ndim != 2 or data.dtype.names is None:
@@ -462,7 +521,8 @@ def call_loader(desc, path: Path):
         names = list(data.dtype.names)
         rec.update({"outcome": "ok", "h": int(data.shape[0]), "w": int(data.shape[1]),
                     "fields": [{"name": n, "data": [t for row in grid_tokens(data[n]) for t in row]} for n in names],
-                    "params": param_tokens(params), "config": None if config is None else cfg_tokens(config)})
+                    "params": param_tokens(params), "config": None if config is None else cfg_tokens(config),
+                    "dtypes": [data.dtype[n].str for n in names]})
         rec["_data"] = data
     except core.InternalError:
         raise
@@ -598,6 +658,81 @@ def param_tokens(params):
     return out
 
 
+class CalTable:
+    """per case: calibrations as small integers (0 = the default `Calibration()`), by content"""
+
+    def __init__(self):
+        from pewlib import Calibration
+
+        self.ids = {self.key(Calibration()): 0}
+
+    @staticmethod
+    def key(c):
+        def opt(x):
+            return None if x is None else ctok(x)
+        return core.canon([ctok(c.intercept), ctok(c.gradient), str(c.unit), opt(c.rsq), opt(c.error),
+                           [[ctok(x), ctok(y)] for x, y in np.asarray(c.points, dtype=np.float64).reshape(-1, 2)],
+                           str(c.weighting), [ctok(w) for w in np.asarray(c._weights, dtype=np.float64).ravel()]])
+
+    def tok(self, c):
+        return self.ids.setdefault(self.key(c), len(self.ids))
+
+    def of(self, laser, names):
+        return [self.tok(laser.calibration[n]) for n in names]
+
+
+CAL_CHOICES = [None, None, None, {"intercept": 2.5, "gradient": 0.5, "unit": "ppm"}, {"intercept": 0.0, "gradient": 3.0, "unit": ""},
+               {"intercept": -1.25, "gradient": 40.0, "unit": "ug/g", "points": [[0.0, 1.0], [1.0, 41.5], [2.0, 79.0]], "rsq": 0.998,
+                "weighting": "1/x"},
+               {"intercept": 0.125, "gradient": 1.0, "unit": "cps", "points": [[0.0, 0.0], [10.0, 10.5]], "rsq": 1.0, "error": 0.25}]
+
+
+def make_calibration(d):
+    from pewlib import Calibration
+
+    if d is None:
+        return Calibration()
+    return Calibration(intercept=d["intercept"], gradient=d["gradient"], unit=d.get("unit", ""), rsq=d.get("rsq"), error=d.get("error"),
+                       points=np.array(d["points"], dtype=np.float64) if d.get("points") else None, weights=d.get("weighting", "Equal"))
+
+
+F8 = np.dtype(np.float64).str  # "<f8"
+
+
+class CastTable:
+    """what NumPy makes of float64 values put into fields of another storage type, and the type np.concatenate promotes to:
+    the tables the driver's `Casting` is realised from (asked of NumPy, never computed here)"""
+
+    def __init__(self):
+        self.casts = {}
+        self.promote = {}
+
+    def add(self, t, values):
+        """values: float64 array; -> the float64 array of what a field of type `t` holds"""
+        t = np.dtype(t)
+        a = np.asarray(values, dtype=np.float64).ravel()
+        with np.errstate(all="ignore"), warnings.catch_warnings():
+            warnings.simplefilter("ignore")
+            b = a.astype(t).astype(np.float64)
+        if t.str != F8:
+            for x, y in zip(a, b):
+                self.casts[(t.str, ctok(x))] = ctok(y)
+        return b
+
+    def result_type(self, types):
+        key = tuple(np.dtype(t).str for t in types)
+        if key not in self.promote:
+            try:
+                self.promote[key] = np.result_type(*[np.dtype(t) for t in types]).str
+            except TypeError:
+                self.promote[key] = None
+        return self.promote[key]
+
+    def request(self):
+        return {"casts": [{"type": t, "src": v, "dst": w} for (t, v), w in sorted(self.casts.items())],
+                "promote": [{"types": list(k), "result": r} for k, r in sorted(self.promote.items()) if r is not None]}
+
+
 def canon_files(files):
     """last write wins, sorted by path"""
     last = {}
@@ -609,7 +744,7 @@ def canon_files(files):
 class C20(Prop):
     id = "C20"
     anchored = ["src/pewlib/__main__.py", "src/pewlib/io/npz.py", "src/pewlib/io/textimage.py", "src/pewlib/process/filters.py"]
-    cases = {"quick": 500, "thorough": 5000}
+    cases = {"quick": 440, "thorough": 5000}
     rule = ("generated command lines of convert / filter / stack over 1..5 inputs written per case (npz, text image with , ; tab "
             "delimiters and .txt/.text/.csv/.TXT names, Agilent batch with each collection method, Thermo iCap CSV in both layouts, "
             "per-line CSV directory generic/Nu with and without x/y columns/TOFWERK), shapes 1x1..7x8 equal and unequal, a quarter of the "
@@ -630,6 +765,13 @@ class C20(Prop):
             "directories named like files (*.npz, *.csv, *.txt), an Agilent batch whose batch log and acquisition method list the lines in "
             "different orders (the first method list must win) or that no method can read, PerkinElmer directories with each "
             "parameters.conf variant and with a csv file beside the .xl files (PerkinElmer must win), directories without data; "
+            "round E: one input path named twice or three times for every sub-command (filter: data on which a second pass of the filter "
+            "changes something); npz fields stored as f4 / i4 / i8 / >f8 / >f4 / f2 / u4 (one type per file or per field; a fifth of the npz stacks "
+            "mix types, narrow first and narrow later, wide inputs with values a narrower type cannot hold), Fortran-ordered arrays, per-element "
+            "calibrations on 40 % of the npz inputs; filter windows 1 / 9 / 11 / 15 / an even one and thresholds -1 / 0.001 / 10 / 1e9; pad -0.0, "
+            "5e-324, 1.8e308, -1e300, 0.1; values +-inf, +-0.0, denormal, 1.8e308; stems with dots, a blank, non-ASCII; two inputs with one stem "
+            "(different directories / different suffixes); options shuffled, before the inputs, as --option=value; stacks of text images and npz "
+            "files with the element _element_ in any order; 9..16 inputs named s1..s16; images of 257..1300 rows or columns through convert and stack; "
             "run in process (main() with patched argv; thin delegating wrappers record which library loader delivered each input) and as "
             "`python -m pewlib` subprocess; non-trivial = at least one file written or a rejected combination; distinct by case hash")
     trusted = ["the library loaders (io.npz.load, io.textimage.load, io.agilent.load, io.thermo.load, io.csv.load, io.perkinelmer.load), the "
@@ -643,11 +785,20 @@ class C20(Prop):
                "in-process runs replace io.csv's ProcessPoolExecutor by an executor that runs each task at submit (pool workers may not "
                "start processes) and wrap the six `io.<format>.load` functions in recording, delegating wrappers; subprocess runs use the real ones",
                "the driver realises the opaque library filter as a table keyed by the CONTENT (shape and every token) of the grid the model hands "
-               "to it; a grid the harness did not filter gives a grid of -1"]
+               "to it; a grid the harness did not filter gives a grid of -1",
+               "NumPy's conversions are the model's opaque `Casting`: the harness asks NumPy (`astype`, `np.result_type`) what a field of each storage "
+               "type holds of every value that reaches it (pad value, input values under the promoted type, filter results under the element's type) "
+               "and sends the tables; float64 is the identity; a missing entry gives -2 / the type '?'. Values are compared as float64 bit patterns "
+               "(the widening of float32 / int32 / small int64 values is exact); the stored type of an output is recorded only",
+               "calibrations are interned by content per case (0 = the default Calibration()), read with io.npz.load from inputs and outputs"]
     assumptions = ["an input that is left with no requested element is skipped without output (the code prints 'skipping'); the property "
                    "text does not say otherwise",
                    "stack inputs share their element names (np.concatenate cannot join different structured dtypes); --elements lists "
-                   "have no duplicates; derived output names are pairwise distinct",
+                   "have no duplicates; derived output names may coincide (one path named twice, equal stems): the last write wins "
+                   "(the driver's `finalFiles`)",
+                   "where a storage type cannot hold the pad value (NaN or 2.5 in an integer input) or the filter's result (mean filter of an "
+                   "integer element) the driver's `TypesHold` is false: hypothesis-excluded and undetermined (the typed model is still compared: "
+                   "feature types-do-not-hold); .vtk of a non-float64 image and the calibration of a stack are recorded only",
                    "a derived output name that is an existing directory (a directory input named *.npz converted to .npz beside itself) is "
                    "counted as undetermined: the property does not say what happens (pewlib: IsADirectoryError, nothing written)",
                    "exit statuses are compared as ok / error only; whether a failing load ends as a usage error (status 2) or a traceback "
@@ -666,6 +817,8 @@ class C20(Prop):
     def gen_input(self, rng, k, fmt, stem, sub, shape=None, elements=None, spikes=False):
         spec = FORMATS[fmt].gen(rng, k, shape, elements)
         spec.update({"stem": stem, "sub": sub, "seed": rng.randrange(1 << 30), "spikes": spikes})
+        if fmt in ("npz", "txt") and rng.random() < (0.04 if spikes else 0.12):
+            spec["specials"] = True
         return spec
 
     def generate(self, rng, tier):
@@ -679,30 +832,62 @@ class C20(Prop):
         # stack: one pixel count, different shapes; filter: more than 512 / 1024 rows or columns
         eqcount = force["eqcount"] if "eqcount" in force else (cmd == "stack" and rng.random() < 0.25)
         large = force["large"] if "large" in force else (cmd == "filter" and rng.random() < 0.2)
+        # sizes nothing else reaches: many inputs (9..16 small npz / text files named s1 .. s16 in numeric order, where the
+        # lexicographic order differs), and images with more than 256 / 512 / 1024 rows or columns through convert and stack
+        many = force["many"] if "many" in force else ("n" not in force and not eqcount and not large and rng.random() < 0.02)
+        long_img = force["long"] if "long" in force else (cmd != "filter" and not eqcount and not many and rng.random() < 0.03)
+        if many:
+            n = rng.choice([9, 11, 12, 16])
         if eqcount and n < 2:
             n = rng.choice([2, 2, 3, 3, 4])
         if large:
             n = force.get("n", rng.choice([1, 1, 1, 2]))
-        p_sub = {"quick": 0.08, "thorough": 0.5}[tier]
+        p_sub = {"quick": 0.05, "thorough": 0.5}[tier]
         mode = force.get("mode", "subproc" if rng.random() < p_sub else "inproc")
         heavy = 0.12 if tier == "quick" else 0.3  # csvdir spawns a process pool per load
         weights = {"npz": 4, "txt": 3, "agilent": 2, "thermo": 2, "csvdir": 8 * heavy}
         pool = [f for f in names for _ in range(max(1, int(10 * weights[f])))]
-        stems = rng.sample(["a", "b", "img", "scan1", "x.v2", "line_3", "Sample", "t0", "q"], n)
+        if many:
+            stems = [f"s{i + 1}" for i in range(n)]
+        else:
+            stems = rng.sample(["a", "b", "img", "scan1", "x.v2", "line_3", "Sample", "t0", "q", "a.b.1", "x y", "UP.per", "\u00fc1"], n)
         subs = [rng.choice(["", "", "in1", "in2"]) for _ in range(n)]
+        # two inputs with one stem: in different directories (their outputs coincide inside an output directory, not beside the
+        # inputs), or in one directory under different suffixes (their outputs coincide whenever they are derived)
+        same_stem = force["same_stem"] if "same_stem" in force else (n >= 2 and cmd != "stack" and rng.random() < 0.06)
+        if same_stem and n >= 2:
+            i, j = rng.sample(range(n), 2)
+            stems[j] = stems[i]
+            if rng.random() < 0.7:
+                subs[i], subs[j] = rng.sample(["", "in1", "in2"], 2)
+            else:
+                subs[j] = subs[i]
         equal = rng.random() < 0.3 and not large  # (the ordinary companions of a large image stay small)
         shape = None
         inputs = []
         if cmd == "stack":
             # one element list for all inputs: text images (always `_element_`) or npz files with the same names
-            kind = force.get("stack_fmt", rng.choice(["npz", "npz", "txt", "mixed"]))
-            els = rng.sample(NPZ_ELEMENTS, rng.choice([1, 2, 2, 3]))
+            kind = force.get("stack_fmt", rng.choice(["npz", "npz", "npz", "txt", "txt", "mixed", "mixed", "any_text"]))
+            if (many or long_img) and "stack_fmt" not in force:
+                kind = rng.choice(["npz", "txt", "any_text"])
+            els = rng.sample(NPZ_ELEMENTS, rng.choice([1, 2, 2, 3]) if not (many or long_img) else 1)
+            if kind == "any_text":  # text images and npz files with the one element `_element_`, in any order
+                els = ["_element_"]
             first = None
             eq_shapes = equal_count_shapes(rng, n, 2 if kind == "mixed" else 1) if eqcount else None
+            long_at = rng.randrange(n) if long_img else None
             for k in range(n):
                 sh = eq_shapes[k] if eqcount else shape if (equal and shape) else None
+                if many:
+                    sh = (rng.choice([1, 1, 2, 3]), rng.choice([1, 2, 2, 3]))
+                if k == long_at:
+                    sh = (rng.choice([257, 513, 600, 1025]), rng.choice([1, 2, 3]))
+                    sh = sh if rng.random() < 0.5 else (sh[1], sh[0])
                 if kind == "txt":
                     fmt, e = "txt", None
+                elif kind == "any_text":
+                    fmt = rng.choice(["txt", "npz"])
+                    e = None if fmt == "txt" else els
                 elif kind == "npz":
                     fmt, e = "npz", els
                 elif k == 0:  # mixed: an instrument format first (its config is the one kept), npz files with its names after it
@@ -716,13 +901,15 @@ class C20(Prop):
         else:
             share = rng.random() < 0.5  # npz inputs share (some) element names so that --elements subsets are interesting
             els = rng.sample(NPZ_ELEMENTS, rng.choice([2, 3, 4]))
-            big_at = rng.randrange(n) if large else None  # the other inputs of a `large` case are ordinary ones
+            big_at = rng.randrange(n) if (large or long_img) else None  # the other inputs of a `large` case are ordinary ones
             for k in range(n):
-                fmt = force.get("fmt") or rng.choice(pool)
+                fmt = force.get("fmt") or rng.choice(pool if not many else ["npz", "npz", "txt"])
                 e = None
                 if fmt == "npz" and share:
                     e = [x for x in els if rng.random() < 0.7] or els[:1]
                 sh = shape if (equal and shape) else None
+                if many:
+                    sh = (rng.choice([1, 1, 2, 3]), rng.choice([1, 2, 2, 3]))
                 flat = False
                 if k == big_at:  # cheap writers only; a few elements
                     fmt = force.get("fmt") or rng.choice(["npz", "npz", "txt"])
@@ -741,14 +928,63 @@ class C20(Prop):
             for k, s_ in enumerate(inputs):
                 if s_["fmt"] == "npz":
                     make_spot(rng, s_) if k in force["spot"] else make_raster(s_)
-        # ---- stack: the same input named twice on the command line (both copies must appear, each at its own position)
-        dup = force["dup"] if "dup" in force else (cmd == "stack" and n >= 2 and rng.random() < 0.08)
-        if dup and cmd == "stack" and n >= 2:
+        # ---- storage classes of npz inputs: field types other than float64 (one per file or one per field) and Fortran-ordered
+        # arrays.  force["dtypes"] = list of type names (or per-field lists), one per input, None = float64.  stack: a fifth of the
+        # stacks over npz files mixes types (np.concatenate promotes; narrower first and narrower later both arise)
+        npz_at = [k for k, s_ in enumerate(inputs) if s_["fmt"] == "npz"]
+        if "dtypes" in force:
+            for k, d in enumerate(force["dtypes"]):
+                if d is not None and k < len(inputs) and inputs[k]["fmt"] == "npz":
+                    inputs[k]["dtype"] = d
+        elif cmd == "stack":
+            if npz_at and n >= 2 and rng.random() < 0.22:
+                pool = rng.choice([["f8", "f4"], ["f8", "f4", ">f8"], ["f8", "i4"], ["f4", "i8", "f8"], ["f4", "i4"], ["f2", "f4", "f8"],
+                                   ["f8", "f4", "i4", "i8", ">f4", "u4"], ["f4", ">f4"], ["i4", "i8"]])
+                for k in npz_at:
+                    inputs[k]["dtype"] = rng.choice(pool)
+                if len(npz_at) == len(inputs) and len({inputs[k]["dtype"] for k in npz_at}) == 1:  # all npz and one type: change one
+                    k = rng.choice(npz_at)
+                    inputs[k]["dtype"] = rng.choice([d for d in pool if d != inputs[k]["dtype"]] or ["f8" if pool[0] != "f8" else "f4"])
+                if rng.random() < 0.25:  # one type per field
+                    for k in npz_at:
+                        inputs[k]["dtype"] = [rng.choice(pool) for _ in inputs[k]["elements"]]
+            elif npz_at and rng.random() < 0.08:  # one narrow type throughout
+                d = rng.choice(["f4", "f4", ">f8", "i4", "f2"])
+                for k in npz_at:
+                    inputs[k]["dtype"] = d
+        else:
+            for k in npz_at:
+                if rng.random() < P_DTYPE and not (large and inputs[k]["h"] * inputs[k]["w"] > 4096):
+                    pool = DTYPE_POOL if cmd == "convert" else ["f4", "f4", ">f8", ">f4", "f2", "f4", "i4"]
+                    inputs[k]["dtype"] = rng.choice(pool)
+                    if len(inputs[k]["elements"]) > 1 and rng.random() < 0.3:
+                        inputs[k]["dtype"] = [rng.choice(["f8"] + pool) for _ in inputs[k]["elements"]]
+        for k in npz_at:
+            if rng.random() < 0.12:
+                inputs[k]["order"] = "F"
+        typed = [d for s_ in inputs for d in field_dtypes(s_) if s_["fmt"] == "npz" and s_.get("dtype")]
+        has_int = any(np.dtype(d).kind in "iu" for d in typed)
+        mixed_types = cmd == "stack" and n >= 2 and len({np.dtype(d) for s_ in inputs for d in
+                                                         (field_dtypes(s_) if s_["fmt"] == "npz" else ["f8"])}) > 1
+        if mixed_types:  # wide inputs hold values a narrower type cannot (full 53-bit mantissas)
+            for s_ in inputs:
+                s_["seed"] |= 1
+        # ---- the same input named twice (or three times) on the command line.  stack: both copies must appear, each at its own
+        # position; convert / filter: every copy is processed on its own (the derived outputs coincide: the same content is written
+        # again) - in particular the second copy must NOT see what the run did to the first (filter: data on which a second pass
+        # of the filter changes something, see `dup_filter` below)
+        dup = force["dup"] if "dup" in force else (n >= 2 and rng.random() < (0.08 if cmd == "stack" else 0.12))
+        if dup and n >= 2:
             i, j = rng.sample(range(n), 2)
+            if cmd == "filter" and not large and inputs[i]["fmt"] in ("npz", "txt") and inputs[i]["h"] * inputs[i]["w"] < 16:
+                inputs[i] = {**inputs[i], "h": rng.choice([4, 5, 7]), "w": rng.choice([4, 6, 8])}  # room for the filter to act
             inputs[j] = dict(inputs[i])
+            if n >= 3 and rng.random() < 0.25:
+                inputs[rng.choice([x for x in range(n) if x not in (i, j)])] = dict(inputs[i])
         # ---- dispatch classes of `load`: one input of about a seventh of the command lines is not an ordinary one
         # force["odd"]: False | True | {"fmt": "perkin" | "emptydir"} | {"fields": {...}} (replace / patch input 0)
-        odd = force["odd"] if "odd" in force else (rng.random() < (0.16 if cmd != "stack" else 0.06) and not large and not eqcount)
+        odd = force["odd"] if "odd" in force else (rng.random() < (0.16 if cmd != "stack" else 0.06) and not large and not eqcount
+                                                  and not many and not long_img)
         if isinstance(odd, dict):
             s0 = inputs[0]
             if "fmt" in odd:
@@ -768,9 +1004,13 @@ class C20(Prop):
             else:
                 inputs[i] = oddify(rng, s0)
         fmt_out = force.get("format", rng.choice([".npz", ".npz", ".npz", ".csv", ".csv", ".vtk", ".txt" if rng.random() < 0.15 else ".npz"]))
+        if typed and fmt_out == ".vtk" and "format" not in force and rng.random() < 0.85:
+            fmt_out = rng.choice([".npz", ".csv"])  # (.vtk of another storage type than float64 is recorded only)
         # ---- output
         if cmd == "stack":
             kinds = ["file"] * 10 + ["file_upper"] * 2 + ["bad_suffix", "dir", "omitted", "missing_dir"]
+            if mixed_types:
+                kinds = ["file"] * 12 + ["file_upper"] * 2 + ["dir"]
         elif n == 1:
             kinds = ["omitted"] * 4 + ["dir"] * 4 + ["file"] * 4 + ["file_upper"] * 2 + ["bad_suffix", "missing_dir"]
         else:
@@ -791,6 +1031,8 @@ class C20(Prop):
             output = {"kind": "file", "sub": "", "name": rng.choice(["newdir", "nodir.d"])}
         case = {"cmd": cmd, "mode": mode, "inputs": inputs, "format": fmt_out, "output": output,
                 "missing_input": force.get("missing_input", rng.random() < 0.03), "relative": rng.random() < 0.25}
+        if rng.random() < 0.3:  # how the command line is written
+            case["argv"] = {"shuffle": rng.randrange(1 << 16), "options_first": rng.random() < 0.4, "equals": rng.random() < 0.4}
         if cmd == "stack":  # `--calibrate`: accepted by the parser, `raise NotImplementedError` in `stack`
             case["calibrate"] = force.get("calibrate", rng.random() < 0.05)
         # ---- command options
@@ -807,6 +1049,13 @@ class C20(Prop):
             case["elements"] = self.pick_elements(rng, all_els)
             case["filter"] = {"type": rng.choice(["mean", "median", None]), "size": rng.choice([3, 3, 5, 7, None]),
                               "threshold": rng.choice([0.0, 0.5, 1.0, 1.5, 3.0, None])}
+            if rng.random() < 0.15:  # the ends of the parameter ranges: window 1 (nothing to compare with), windows larger than
+                # the image, an even window (the library rejects it: counted only), negative / tiny / huge thresholds
+                case["filter"] = {"type": rng.choice(["mean", "median", None]), "size": rng.choice([1, 9, 11, 9, 11, 15, 2]),
+                                  "threshold": rng.choice([-1.0, 0.001, 10.0, 1e9, 0.25, 3.0])}
+            if dup:  # a second pass over the filtered image must change something: low thresholds, small windows
+                case["filter"] = {"type": rng.choice(["mean", "median", None]), "size": rng.choice([3, 3, 5]),
+                                  "threshold": rng.choice([0.5, 0.75, 1.0, 1.0, 1.5])}
             if large:  # both filters, every odd window 3..7, thresholds that leave pixels on both sides of the decision
                 case["filter"] = {"type": force.get("ftype", rng.choice(["mean", "median", "median", None])),
                                   "size": force.get("size", rng.choice([3, 5, 7, None])),
@@ -814,6 +1063,10 @@ class C20(Prop):
         else:
             case["orientation"] = rng.choice(["vertical", "horizontal", None])
             case["pad"] = rng.choice(["default", "nan", -1.0, 0.0, 2.5, 1e6])
+            if rng.random() < 0.12:  # signed zero, the smallest and the largest magnitudes, a value that is no dyadic fraction
+                case["pad"] = rng.choice([-0.0, 5e-324, 1.7976931348623157e308, -1e300, 0.1, -123.456, 1e-7])
+            if has_int and rng.random() < 0.85:  # a pad value every integer type holds (others: recorded only)
+                case["pad"] = rng.choice([-1.0, 0.0, 1e6, 0.0, 7.0]) if not any(np.dtype(d).kind == "u" for d in typed) else rng.choice([0.0, 7.0, 1e6])
         if "elements" in force and cmd != "stack":
             case["elements"] = force["elements"]
         return case
@@ -881,6 +1134,64 @@ class C20(Prop):
             case = self.build(rng, "quick", "stack", n=n, okind="file", format=".npz", mode="inproc", stack_fmt=["npz", "txt"][j % 2],
                               eqcount=False, odd=False, dup=True, missing_input=False, calibrate=False)
             yield {**case, "orientation": orient}
+        # filter: the ends of the parameter ranges (window 1, windows larger than the image, negative / tiny / huge thresholds) on
+        # an image with spikes, and elements stored in single precision / big-endian / half precision (the library filters
+        # compute in the element's own type)
+        ext = [("mean", 1, 0.5), ("median", 1, 0.5), ("mean", 3, -1.0), ("median", 5, -1.0), ("mean", 9, 0.001), ("median", 11, 1e9),
+               ("mean", 15, 10.0), ("median", 3, 0.001), ("mean", 3, -0.5)]
+        for j, (ftype, size, thr) in enumerate(ext):
+            rng = random.Random(f"C20-targeted-filter-ends-{j}")
+            case = self.build(rng, "quick", "filter", n=1 + j % 2, okind=["dir", "omitted"][j % 2], format=".npz", mode="inproc", fmt="npz",
+                              eqcount=False, large=False, odd=False, dup=False, missing_input=False, many=False, elements=None,
+                              dtypes=[None, None])
+            for s_ in case["inputs"]:
+                s_.update({"h": 6, "w": 7, "nans": False})
+                s_.pop("specials", None)
+            yield {**case, "filter": {"type": ftype, "size": size, "threshold": thr}}
+        for j, (dt, ftype, size, thr) in enumerate([("f4", "mean", 3, 1.0), ("f4", "median", 5, 0.5), (">f4", "mean", 5, 0.5), ("f2", "median", 3, 1.0),
+                                                    (["f4", "f8"], "mean", 3, 0.5), (">f8", "median", 3, 0.5), ("f4", "mean", 7, 1.5)]):
+            rng = random.Random(f"C20-targeted-filter-types-{j}")
+            case = self.build(rng, "quick", "filter", n=1, okind="dir", format=[".npz", ".csv"][j % 2], mode="inproc", fmt="npz",
+                              eqcount=False, large=False, odd=False, dup=False, missing_input=False, many=False, elements=None, dtypes=[dt])
+            case["inputs"][0].update({"h": 8, "w": 9, "nans": False, "elements": ["A", "Fe56"]})
+            case["inputs"][0].pop("specials", None)
+            case["inputs"][0].pop("calibration", None)
+            yield {**case, "filter": {"type": ftype, "size": size, "threshold": thr}}
+        # many inputs (names whose lexicographic order is not the numeric one), long images through convert and stack
+        for j, cmd in enumerate(["convert", "filter", "stack", "stack"]):
+            rng = random.Random(f"C20-targeted-many-{j}")
+            case = self.build(rng, "quick", cmd, many=True, okind="file" if cmd == "stack" else "dir", format=[".npz", ".csv"][j % 2],
+                              mode="inproc", eqcount=False, large=False, odd=False, missing_input=False, calibrate=False, long=False)
+            yield case
+        for j, cmd in enumerate(["convert", "stack", "stack", "convert"]):
+            rng = random.Random(f"C20-targeted-long-{j}")
+            yield self.build(rng, "quick", cmd, long=True, many=False, okind="file" if cmd == "stack" else "dir",
+                             format=[".npz", ".csv", ".npz", ".vtk"][j], mode="inproc", eqcount=False, large=False, odd=False,
+                             missing_input=False, calibrate=False, **({"n": 2} if cmd == "stack" else {}))
+        # convert / filter: one input named twice (three times); every copy is processed on its own
+        dup_cases = [("filter", 2, "npz", "dir", ".npz", "inproc"), ("filter", 2, "npz", "omitted", ".npz", "subproc"),
+                     ("filter", 2, "txt", "dir", ".csv", "inproc"), ("filter", 3, "npz", "omitted", ".npz", "inproc"),
+                     ("filter", 3, "txt", "dir", ".npz", "inproc"), ("filter", 4, "npz", "dir", ".npz", "inproc"),
+                     ("convert", 2, "npz", "dir", ".npz", "inproc"), ("convert", 3, "npz", "omitted", ".csv", "inproc")]
+        for j, (cmd, n, fmt, okind, fmt_out, mode) in enumerate(dup_cases):
+            rng = random.Random(f"C20-targeted-dup-{cmd}-{j}")
+            yield self.build(rng, "quick", cmd, n=n, okind=okind, format=fmt_out, mode=mode, fmt=fmt, eqcount=False, large=False,
+                             odd=False, dup=True, missing_input=False, **({"elements": None} if j % 2 == 0 else {}))
+        # stack: inputs whose fields are stored in different types, narrower first and narrower later, both orientations;
+        # one type per field; a Fortran-ordered array
+        type_cases = [(["f4", "f8"], "vertical", -1.0), (["f8", "f4"], "horizontal", "nan"), (["f4", "f8"], "horizontal", "nan"),
+                      (["i4", "f8"], "vertical", 0.0), (["f8", "i4"], "vertical", -1.0), (["i4", "f4"], "horizontal", 1e6),
+                      (["f4", "f8", "f4"], "vertical", 2.5), ([">f8", "f4", "f8"], "horizontal", "default"),
+                      (["i4", "i8"], "vertical", -1.0), (["f2", "f4", "f8"], "vertical", "nan"),
+                      ([["f4", "f8", "f4"], ["f8", "f4", "f4"]], "vertical", "nan"), (["f4", "f4"], "horizontal", 2.5)]
+        for j, (dts, orient, pad) in enumerate(type_cases):
+            rng = random.Random(f"C20-targeted-types-{j}")
+            case = self.build(rng, "quick", "stack", n=len(dts), okind="file", format=[".npz", ".npz", ".csv"][j % 3],
+                              mode="subproc" if j == 2 else "inproc", stack_fmt="npz", eqcount=False, odd=False, dup=False,
+                              missing_input=False, calibrate=False, dtypes=dts)
+            if j % 4 == 1:
+                case["inputs"][0]["order"] = "F"
+            yield {**case, "orientation": orient, "pad": pad}
         # the dispatch classes of `load`: every odd suffix / layout once (convert, one input), the Agilent method variants,
         # PerkinElmer directories (with and without a csv beside the .xl files, every parameters.conf variant), an
         # unsupported directory; a failing load AFTER a good one (nothing may be written); `--calibrate`
@@ -975,34 +1286,54 @@ class C20(Prop):
     def argv_of(self, case, root: Path, rels, out_rel):
         def arg(rel):
             return str(rel) if case["relative"] else str(root / rel)
-        argv = [case["cmd"]] + [arg(r) for r in rels]
+        single, multi = [], []  # options with one value (or none) / with several values
         if case["format"] != ".npz" or len(rels) % 2 == 0:  # the default is exercised as well
-            argv += ["--format", case["format"]]
+            single.append(["--format", case["format"]])
         if out_rel is not None:
-            argv += ["--output", arg(out_rel)]
+            single.append(["--output", arg(out_rel)])
         if case["cmd"] == "convert":
             if case["config"] is not None:
-                argv += ["--config"] + [repr(x) for x in case["config"]]
+                multi.append(["--config"] + [repr(x) for x in case["config"]])
             if case["elements"] is not None:
-                argv += ["--elements"] + case["elements"]
+                multi.append(["--elements"] + case["elements"])
         elif case["cmd"] == "filter":
             f = case["filter"]
             if f["type"] is not None:
-                argv += ["--type", f["type"]]
+                single.append(["--type", f["type"]])
             if f["size"] is not None:
-                argv += ["--size", str(f["size"])]
+                single.append(["--size", str(f["size"])])
             if f["threshold"] is not None:
-                argv += ["--threshold", repr(f["threshold"])]
+                single.append(["--threshold", repr(f["threshold"])])
             if case["elements"] is not None:
-                argv += ["--elements"] + case["elements"]
+                multi.append(["--elements"] + case["elements"])
         else:
             if case["orientation"] is not None:
-                argv += ["--orientation", case["orientation"]]
+                single.append(["--orientation", case["orientation"]])
             if case["pad"] != "default":
-                argv += ["--pad", "nan" if case["pad"] == "nan" else repr(case["pad"])]
+                single.append(["--pad", "nan" if case["pad"] == "nan" else repr(case["pad"])])
             if case.get("calibrate"):
-                argv += ["--calibrate"]
-        return argv
+                single.append(["--calibrate"])
+        # the order and the spelling of the options: as written above (the default), or shuffled, options before the inputs,
+        # `--option=value` (a list of values ends at the next option or at the end, so those stay behind the inputs)
+        style = case.get("argv") or {}
+        if "shuffle" in style:
+            r = random.Random(f"C20-argv-{style['shuffle']}")
+            r.shuffle(single)
+            r.shuffle(multi)
+        import re as _re
+
+        def needs_equals(v):  # argparse takes `-1e+300` for an option name (its pattern of negative numbers knows no exponent)
+            return v.startswith("-") and not _re.match(r"^-\d+$|^-\d*\.\d+$", v)
+        single = [[g[0] + "=" + g[1]] if len(g) == 2 and (style.get("equals") or needs_equals(g[1])) else g for g in single]
+        flat = lambda groups: [x for g in groups for x in g]  # noqa: E731
+        inputs = [arg(r) for r in rels]
+        if style.get("options_first"):
+            return [case["cmd"]] + flat(single) + inputs + flat(multi)
+        if "shuffle" in style:  # options of both kinds mixed behind the inputs
+            groups = single + multi
+            random.Random(f"C20-argv2-{style['shuffle']}").shuffle(groups)
+            return [case["cmd"]] + inputs + flat(groups)
+        return [case["cmd"]] + inputs + flat(single) + flat(multi)
 
     def run_cli(self, case, root: Path, argv):
         """-> ('ok' | 'error', exit kind 'ok' | 'usage' | 'crash', LoaderSpy or None)"""
@@ -1034,7 +1365,7 @@ class C20(Prop):
             os.chdir(old_cwd)
 
     @staticmethod
-    def read_back(root: Path, rel: str):
+    def read_back(root: Path, rel: str, cal=None):
         from pewlib.io import npz, textimage
 
         p = root / rel
@@ -1045,7 +1376,9 @@ class C20(Prop):
                 laser = npz.load(p)
                 names = list(laser.data.dtype.names)
                 out.update({"kind": "npz", "elements": names, "shape": list(laser.data.shape),
-                            "data": [grid_tokens(laser.data[n]) for n in names], "config": cfg_tokens(laser.config)})
+                            "data": [grid_tokens(laser.data[n]) for n in names], "config": cfg_tokens(laser.config),
+                            "calib": [0] * len(names) if cal is None else cal.of(laser, names),
+                            "_dtypes": [laser.data.dtype[n].str for n in names]})
             elif suffix == ".csv":
                 g = textimage.load(p)
                 out.update({"kind": "csv", "shape": list(g.shape), "data": grid_tokens(g)})
@@ -1089,6 +1422,8 @@ class C20(Prop):
         root = ctx.tmpdir()
         cmd = case["cmd"]
         feats = {f"cmd:{cmd}", f"mode:{case['mode']}", f"format:{case['format']}"}
+        cal = CalTable()
+        casts = CastTable()
         # ---- 1. inputs (a path named twice is ONE input on disk: the description of its first occurrence counts)
         inputs, first_of = [], {}
         for spec in case["inputs"]:
@@ -1105,7 +1440,9 @@ class C20(Prop):
                 continue
             (root / rel).parent.mkdir(parents=True, exist_ok=True)
             vals = make_values(spec["seed"], k, len(spec["elements"]), spec["h"], spec["w"], spec["spikes"], spec["nans"],
-                               spec.get("flat", False))
+                               spec.get("flat", False), bool(spec.get("specials")) and spec["fmt"] in ("npz", "txt"))
+            if spec.get("specials") and spec["fmt"] in ("npz", "txt"):
+                feats.add("special-values")
             fmt.write(root / rel, spec, vals)
             rels.append(rel)
             feats.add("in:" + spec["fmt"])
@@ -1132,7 +1469,7 @@ class C20(Prop):
         plan = ctx.driver.call("c20.plan", sources=sources)["candidates"]
         datas = []  # per source: the arrays of the successful calls (for the filter table)
         for src, rel, cands in zip(sources, run_rels, plan):
-            recs = [call_loader(c, root / rel) for c in cands]
+            recs = [call_loader(c, root / rel, cal) for c in cands]
             datas.append([r.pop("_data") for r in recs if r["outcome"] == "ok"])
             src["calls"] = recs
         for spec, src in zip(inputs, sources):  # writer / loader sanity for the ordinary inputs
@@ -1144,23 +1481,36 @@ class C20(Prop):
         default = Config()
         undetermined = False
         changed_by_filter = False
+        second_pass_changes = False
         table = []
         if cmd == "filter":
             f = case["filter"]
             func = filters.rolling_median if f["type"] == "median" else filters.rolling_mean
             size, thr = (5 if f["size"] is None else f["size"]), (3.0 if f["threshold"] is None else f["threshold"])
             seen = set()
-            for arrays in datas:
+            repeated = {rel for rel in run_rels if run_rels.count(rel) > 1}
+            for rel, arrays in zip(run_rels, datas):
                 for data in arrays:
                     for n in data.dtype.names:
                         src_t = [t for row in grid_tokens(data[n]) for t in row]
-                        key = (data.shape, tuple(src_t))
+                        key = (data.shape, tuple(src_t), data.dtype[n].str)
                         if key in seen:
                             continue
                         seen.add(key)
                         try:
                             with np.errstate(all="ignore"):
-                                dst_t = [t for row in grid_tokens(func(np.array(data[n]), size, thr)) for t in row]
+                                res = func(np.array(data[n]), size, thr)
+                                dst_t = [t for row in grid_tokens(res) for t in row]
+                                # the command line stores the result in the field of the loaded image: a result the field's
+                                # storage type cannot hold (the mean filter of an integer image) is outside what the property
+                                # can mean by "exactly the library filter" -> recorded, never a verdict
+                                back = casts.add(data.dtype[n], np.asarray(res, dtype=np.float64))
+                                if not np.array_equal(back, np.asarray(res, dtype=np.float64).ravel(), equal_nan=True):
+                                    feats.add("filter:result-not-representable-in-field-type (recorded only)")
+                                if rel in repeated:
+                                    again = [t for row in grid_tokens(func(np.array(res), size, thr)) for t in row]
+                                    if again != dst_t:
+                                        second_pass_changes = True
                         except Exception:
                             undetermined = True  # the library filter itself rejects these arguments: nothing to compare with
                             dst_t = src_t
@@ -1177,7 +1527,68 @@ class C20(Prop):
         else:
             req["orientation"] = case["orientation"] or "vertical"
             req["pad"] = NAN_TOK if case["pad"] in ("default", "nan") else ctok(case["pad"])
+        # ---- storage types of the loaded images (from the arrays the loaders returned, not from the case description)
+        loaded = [arrays[0] if arrays else None for arrays in datas]
+        types = [None if a is None else [a.dtype[n] for n in a.dtype.names] for a in loaded]
+        f8 = np.dtype(np.float64)
+        for a, ts in zip(loaded, types):
+            if a is None:
+                continue
+            for t in ts:
+                if t != f8:
+                    feats.add("in:field-type:" + t.str.lstrip("<|=") )
+            if len(set(ts)) > 1:
+                feats.add("in:field-types-differ-within-image")
+            if a.ndim == 2 and min(a.shape) > 1 and a.flags["F_CONTIGUOUS"] and not a.flags["C_CONTIGUOUS"]:
+                feats.add("in:fortran-ordered")
+        other_types = any(t != f8 for ts in types if ts for t in ts)
+        if other_types and case["format"] == ".vtk":
+            # io.vtk.save declares Float64 and writes the bytes of the array as stored: not an image of other storage types
+            # (the property text does not name .vtk) -> recorded, never a verdict
+            undetermined = True
+            feats.add("vtk-of-non-float64-image (recorded only)")
+        if cmd == "stack" and all(ts is not None for ts in types) and types:
+            padv = math.nan if case["pad"] in ("default", "nan") else float(case["pad"])
+            if not all(representable(padv, t) for ts in types for t in ts):
+                # np.pad holds the pad value in the storage type of each input (NaN or 2.5 in an integer image): the property's
+                # "the pad value everywhere else" cannot be met there -> recorded, never a verdict (decided by the driver: TypesHold)
+                feats.add("stack:pad-not-representable-in-an-input-type (recorded only)")
+            # what NumPy makes of the pad value in each input's types, and of every value in the promoted types
+            names0 = list(loaded[0].dtype.names)
+            if all(list(a.dtype.names) == names0 for a in loaded):
+                for fi, n in enumerate(names0):
+                    col = [ts[fi] for ts in types]
+                    wide = casts.result_type(col)
+                    held = [casts.add(t, [padv]) for t in col]
+                    if wide is not None:
+                        casts.add(wide, [padv])
+                        for hv in held:
+                            casts.add(wide, hv)
+                        for a in loaded:
+                            casts.add(wide, np.asarray(a[n], dtype=np.float64))
+            if len(types) > 1 and len({len(ts) for ts in types}) == 1:
+                per_field = list(zip(*types))
+                if any(len(set(col)) > 1 for col in per_field):
+                    feats.add("stack:field-types-differ")
+                    try:
+                        wide = [np.result_type(*col) for col in per_field]
+                        if any(w != col[0] for w, col in zip(wide, per_field)):
+                            feats.add("stack:first-input-narrower-than-a-later-one")
+                        if any(w != c for w, col in zip(wide, per_field) for c in col[1:]):
+                            feats.add("stack:later-input-narrower-than-the-result")
+                        if any(col[0].kind in "iu" and w.kind == "f" for w, col in zip(wide, per_field)):
+                            feats.add("stack:integer-first-then-float")
+                    except TypeError:
+                        pass
+                elif other_types:
+                    feats.add("stack:one-narrow-type-throughout")
+        req.update(casts.request())
         rep = ctx.driver.call("c20.run", **req)
+        if not rep["types_hold"]:
+            # a storage type cannot hold the pad value or the filter's result: the typed mechanism (the model) and the
+            # specification differ by `runT_refines_spec`'s hypothesis -> counted as hypothesis-excluded, never a verdict
+            undetermined = True
+            feats.add("types-do-not-hold (recorded only)")
 
         def spacing_of(cfg):
             """the spacing `save` hands to io.vtk.save, from the configuration of the model's image, through the library's
@@ -1187,9 +1598,11 @@ class C20(Prop):
 
         def side(r):
             files = []
-            for f in canon_files(r["files"]):
+            for f in canon_files(r["files"]):  # (the driver sends `finalFiles`: every path once; sorted here)
                 if f["kind"] == "vtk":
                     f = {k: v for k, v in f.items() if k != "config"} | {"spacing": spacing_of(f["config"])}
+                if f["kind"] == "npz" and cmd == "stack":  # the property says nothing about the calibration of a stack
+                    f = {k: v for k, v in f.items() if k != "calib"}
                 files.append(f)
             return {"status": r["status"], "files": files}
         model, spec_ = side(rep["model"]), side(rep["spec"])
@@ -1205,7 +1618,7 @@ class C20(Prop):
         def load_side(x):
             if "fail" in x:
                 return "fail"
-            return {k: x[k] for k in ("elements", "shape", "data", "config")}
+            return {k: x[k] for k in ("elements", "shape", "data", "config", "calib")}
         if hasattr(cli_mod, "load"):
             direct, kinds = [], []
             for rel, src in zip(run_rels, sources):
@@ -1218,7 +1631,7 @@ class C20(Prop):
                         laser = cli_mod.load(root / rel)
                     names = list(laser.data.dtype.names)
                     direct.append({"elements": names, "shape": list(laser.data.shape), "data": [grid_tokens(laser.data[n]) for n in names],
-                                   "config": cfg_tokens(laser.config)})
+                                   "config": cfg_tokens(laser.config), "calib": cal.of(laser, names)})
                     kinds.append(None)
                 except Exception as e:  # noqa: BLE001
                     direct.append("fail")
@@ -1240,7 +1653,12 @@ class C20(Prop):
         after = snapshot(root)
         written = sorted(p for p in after if before.get(p) != after[p])
         removed = sorted(p for p in before if p not in after)
-        impl = {"status": status, "files": [self.read_back(root, p) for p in written]}
+        impl = {"status": status, "files": [self.read_back(root, p, cal) for p in written]}
+        out_types = {f["path"]: f.pop("_dtypes") for f in impl["files"] if "_dtypes" in f}
+        stack_cal = None
+        for f in impl["files"]:
+            if f["kind"] == "npz" and cmd == "stack":
+                stack_cal = f.pop("calib")
         if removed:
             impl["removed"] = removed
 
@@ -1275,6 +1693,10 @@ class C20(Prop):
             feats.add("calibrate")
         n = len(inputs)
         feats.add("n1" if n == 1 else "n2" if n == 2 else "n>=3")
+        if n >= 9:
+            feats.add("n>=9")
+        if cmd != "filter" and any(max(s["h"], s["w"]) > 256 for s in inputs):
+            feats.add(f"{cmd}:long-image")
         shapes = {(s["h"], s["w"]) for s in inputs}
         if n > 1:
             feats.add("equal-shapes" if len(shapes) == 1 else "unequal-shapes")
@@ -1316,8 +1738,31 @@ class C20(Prop):
                 feats.add("spot-config:with-vtk-spacing")
         if any(f.get("kind") == "npz" and f["config"][0] == "spot" for f in spec_["files"]):
             feats.add("out:spot-config")
+        if rep["spec"]["status"] == "ok" and rep["spec"]["written"] > len(rep["spec"]["files"]):
+            feats.add("outputs-coincide")  # a later file replaces an earlier one (the driver's `finalFiles`)
+            if len(set(run_rels)) == len(run_rels):
+                feats.add("outputs-coincide:of-different-inputs")
+        if len({(Path(r).parent, Path(r).stem) for r in set(run_rels)}) < len(set(run_rels)):
+            feats.add("in:one-stem-two-suffixes-in-one-directory")
+        if len({Path(r).stem for r in set(run_rels)}) < len(set(run_rels)):
+            feats.add("in:equal-stems")
+        if case.get("argv"):
+            feats.add("argv:shuffled")
+            if case["argv"].get("options_first"):
+                feats.add("argv:options-before-inputs")
+            if case["argv"].get("equals"):
+                feats.add("argv:option=value")
+        if "same-input-twice" in feats:
+            feats.add("same-input-twice:" + cmd)
+            if cmd == "filter" and second_pass_changes and spec_["status"] == "ok" and spec_["files"]:
+                feats.add("same-input-twice:filter-second-pass-would-change")
         if cmd == "filter":
             feats.add("filter:" + (case["filter"]["type"] or "default"))
+            fsz, fth = case["filter"]["size"], case["filter"]["threshold"]
+            if fsz is not None and fsz not in (3, 5, 7):
+                feats.add("filter:window-1" if fsz == 1 else "filter:window-even (library rejects)" if fsz % 2 == 0 else "filter:window>=9")
+            if fth is not None and (fth < 0 or fth > 3.0 or 0 < fth < 0.01):
+                feats.add("filter:threshold-extreme")
             if changed_by_filter:
                 feats.add("filter:changed-values")
             for axis, key in (("rows", "h"), ("cols", "w")):
@@ -1331,6 +1776,9 @@ class C20(Prop):
         if cmd == "stack":
             feats.add("orient:" + (case["orientation"] or "default"))
             feats.add("pad:" + ("nan" if case["pad"] in ("default", "nan") else "finite"))
+            if case["pad"] not in ("default", "nan", -1.0, 2.5, 1e6) or (case["pad"] == 0.0 and math.copysign(1.0, case["pad"]) < 0):
+                if case["pad"] != 0.0 or math.copysign(1.0, case["pad"]) < 0:
+                    feats.add("pad:extreme-or-signed-zero")
             if spec_["status"] == "ok" and len(shapes) > 1:
                 feats.add("stack:padding-needed")
             if len(shapes) > 1 and len({s["h"] * s["w"] for s in inputs}) == 1:
@@ -1339,8 +1787,36 @@ class C20(Prop):
                     feats.add("stack:transposed-pair")
         if any(s["nans"] for s in inputs):
             feats.add("nan-values")
+        # calibrations (an .npz input carries them; every other loader gives the default): kept by convert / filter -> compared;
+        # of a stack: recorded only
+        if any(any(c != 0 for c in r.get("calib", [])) for src in sources for r in src["calls"]):
+            feats.add("in:calibration")
+            if any(f.get("kind") == "npz" and any(c != 0 for c in f.get("calib", [])) for f in spec_["files"]):
+                feats.add("out:calibration-kept")
+        if stack_cal is not None:
+            want = [f["calib"] for f in rep["spec"]["files"] if f.get("kind") == "npz"]
+            if want and any(c != 0 for c in want[0] + stack_cal):
+                feats.add("stack:calibration-" + ("of-first-input" if want[0] == stack_cal else "differs") + " (recorded only)")
+        # storage types of the written .npz files (recorded only): convert / filter keep the loaded types, stack promotes
+        if out_types and spec_["status"] == "ok" and all(ts is not None for ts in types):
+            if cmd == "stack":
+                try:
+                    want_t = [np.result_type(*col).str for col in zip(*types)]
+                except (TypeError, ValueError):
+                    want_t = None
+                got = next(iter(out_types.values()))
+                if want_t is not None and other_types:
+                    feats.add("out-types-" + ("promoted" if got == want_t else "differ") + " (recorded only)")
+            elif other_types:
+                by_name = [dict(zip(a.dtype.names, [t.str for t in ts])) for a, ts in zip(loaded, types)]
+                ok_t = True
+                for f in impl["files"]:
+                    if f["kind"] == "npz" and f["path"] in out_types:
+                        ok_t = ok_t and any(all(d.get(n) == t for n, t in zip(f["elements"], out_types[f["path"]])) for d in by_name)
+                feats.add("out-types-" + ("as-loaded" if ok_t else "differ") + " (recorded only)")
         nontrivial = bool(spec_["files"]) or spec_["status"] == "error"
-        return outcome(impl, model, spec_, undetermined=undetermined, features=feats if nontrivial else [])
+        return outcome(impl, model, spec_, undetermined=undetermined, hyp=bool(rep["types_hold"]),
+                       features=feats if nontrivial else [])
 
     # ------------------------------------------------------------------ shrinking
     def shrink(self, case):
